@@ -35,7 +35,10 @@ def run(ctx):
         d = rnd.choice(sorted(fs.dirs))
         fs.files[(d + "/" if d else "") + "scratch.tmp"] = "ignored content %d" % i
         fs.files["keep.bak"] = "ignored backup"
-        pats = rnd.choice([["*.tmp"], ["*.tmp", "*.bak"], ["keep.bak"]])
+        fs.files["cache/thumb.bin"] = "thumbnail %d" % i
+        fs.files[(d + "/" if d else "") + "cache/deep/t.bin"] = "deep thumbnail"
+        fs.dirs.update({"cache"})
+        pats = rnd.choice([["*.tmp"], ["*.tmp", "*.bak"], ["keep.bak"], ["cache/"], ["cache/", "*.tmp"], ["/cache"]])
         ops = [{"op": "create", "at": "", "h": gen.fmt_subset(rnd, (1, 2)), "now": "2026-03-01 12:00:01", "i": pats}, {"op": "verifydh", "at": "", "co": True}, {"op": "verifydh", "at": ""},
                {"op": "create", "at": "", "h": gen.fmt_subset(rnd, (1, 2)), "now": "2026-03-01 12:00:02"}, {"op": "verifydh", "at": "", "co": True, "i": ["*.bak"]}]
         scs.append({"seed": i, "profile": "c07-ignored", "root": "root", "tree": gen.tree_dict(fs), "ops": ops})
